@@ -33,7 +33,7 @@ def _basins(rng, present):
     return S, F
 
 
-def gen(rng, tier):
+def _gen0(rng, tier):
     n = G.budget(1500) if tier == 'quick' else 20000
     for _ in range(n):
         labs, akind = G.alphabet(rng, k=rng.randint(2, 6))
@@ -69,6 +69,18 @@ def gen(rng, tier):
         if F:
             yield {'k': rng.choice(['wt', 'paths']), 'trajs': trajs, 'S': S, 'F': F, 'form': 'loa', 'alpha': 'long-narrow',
                    'mal': None, 'dtypes': [rng.choice(['int8', 'uint8', 'int16'])]}
+    for _ in range(G.budget(80) if tier == 'quick' else 2000):     # zero-length trajectories inside the set
+        labs, akind = G.alphabet(rng, k=rng.randint(2, 4))
+        trajs = G.trajset(rng, labs, ntraj=rng.choice([2, 3, 4, 5]), big=False)
+        present = sorted({v for t in trajs for v in t})
+        if len(present) < 2:
+            continue
+        S, F = _basins(rng, present)
+        if not F:
+            continue
+        trajs = G.insert_empties(trajs, G.empty_positions(rng, len(trajs)))
+        yield {'k': rng.choice(['wt', 'paths']), 'trajs': trajs, 'S': S, 'F': F, 'form': rng.choice(['loa', 'loa', 'obj']),
+               'alpha': akind + '+empty', 'mal': None}
     if tier == 'thorough':
         labs = [0, 1, 2, 3]
         subsets = [list(c) for r in range(1, 4) for c in itertools.combinations(labs, r)]
@@ -83,6 +95,10 @@ def gen(rng, tier):
                     yield {'k': 'paths', 'trajs': [t], 'S': S, 'F': F, 'form': 'arr1', 'alpha': 'enum', 'mal': None}
                     yield {'k': 'wt', 'trajs': [t], 'S': S, 'F': F, 'form': 'arr1', 'alpha': 'enum', 'mal': None}
         yield 'EXHAUSTIVE'
+
+
+def gen(rng, tier):
+    return G.with_layouts(rng, _gen0(rng, tier), p_alt=0.12, p_lumped=0.1)
 
 
 def corpus():
@@ -113,7 +129,7 @@ def shrink(case):
 def impl(case):
     import msmhelper as mh
     from implutil import build
-    data = build(case['form'], case['trajs'], case.get('dtypes'))
+    data = build(case['form'], case['trajs'], case.get('dtypes'), case.get('layout'))
     if case['k'] == 'wt':
         r = mh.md.estimate_waiting_times(data, case['S'], case['F'])
         return {'ok': [int(v) for v in r]}
@@ -167,6 +183,6 @@ def nontrivial(case, ibc):
 
 def describe(case, ibc):
     r = next(iter(ibc.values()))
-    return ['call:' + case['k'], 'form:' + case['form'], 'alphabet:' + case['alpha'],
+    return ['call:' + case['k'], 'form:' + case['form'] + ('/' + case['layout'] if case.get('layout') else ''), 'alphabet:' + case['alpha'],
             'ntraj:%d' % len(case['trajs']), 'malformed:%s' % case['mal'],
             'outcome:' + ('err-' + r['err'] if 'err' in r else ('events' if r['ok'] else 'none'))]
